@@ -185,6 +185,9 @@ func run(o *options) (code int) {
 				v := "ok  "
 				if !ob.OK {
 					v = "FAIL"
+					if ob.Known {
+						v = "KNWN"
+					}
 				}
 				fmt.Printf("  %s %-8s %-28s %s — %s\n", v, ob.Rule, ob.At, ob.Key, ob.Msg)
 			}
